@@ -212,7 +212,7 @@ def run(rep: common.Report, tier: str, seed: int):
             continue
         seen.add(h)
         d = c['cfg']
-        nt += sum([tuple(float(v) for v in d['shift_origin']) != (0.0, 0.0), bool(d['flip_x']), bool(d['flip_y']), bool(d['rotation_angle']), d['n_glass'] != d['n_environment']]) >= 2
+        nt += int(sum([tuple(float(v) for v in d['shift_origin']) != (0.0, 0.0), bool(d['flip_x']), bool(d['flip_y']), bool(d['rotation_angle']), d['n_glass'] != d['n_environment']]) >= 2)
     rep.coverage.update({
         'evaluations': len(cases), 'distinct_nontrivial': nt,
         'rule': 'case = (shift, flips, angle, indices, points) at a call site (transform_points scalar/1/n/float64, export_array2d '
